@@ -9,6 +9,10 @@ NOT_APPLICABLE = props.NOT_APPLICABLE
 checks = []
 for pid in sorted(props.PROPS):
     p = props.PROPS[pid]()
+    names = [j.harness for j in p.jobs if j.kind == "kani"]
+    for a in names:
+        for b in names:
+            assert a == b or a not in b, "%s: harness name %s is a substring of %s (kani --harness matches substrings)" % (pid, a, b)
     checks.append({
         "property_id": pid,
         "quick_cmd": "./check %s --tier quick" % pid,
